@@ -360,7 +360,7 @@ Outcomes(op, a, d, n) ==
       [] op = "SubdocInsert"   -> SubdocWriteOut(a, d, n, TRUE)
       [] op = "GetSubDocRaw"   -> GetSubDocRawOut(a, d)
       [] op \in {"Get", "GetRaw"} -> GetOut(a, d)
-      [] op = "Nop" -> {Out(TRUE, {"ok"}, d, FALSE)}
+      [] op \in {"Nop", "SwapDDoc"} -> {Out(TRUE, {"ok"}, d, FALSE)}
       [] OTHER -> Wild(d)
 
 (* Which listed properties a deviation of `op` from Outcomes is filed      *)
